@@ -26,7 +26,7 @@ import (
 	"verif/vk"
 )
 
-const c07Rule = "all 16 combinations of ResetOnLogon/ResetOnLogout/ResetOnDisconnect/RefreshOnLogon x role x BeginString x store (memory, file, sqlite) x plain / optional-field session identity, generated starting counters, then a state machine: traffic, peer logout, disconnect, reconnect with a faithful or a ResetSeqNumFlag-carrying counterparty, an application that leaves its Logon alone, adds ResetSeqNumFlag=N or (initiator) sets ResetSeqNumFlag=Y in ToAdmin, reset-time crossings, restarts on the persistent store, SequenceReset messages over NewSeqNo {<,=,>expected} x GapFillFlag {Y,N,absent} x MsgSeqNum {expected, above, below+PossDup}; non-trivial = history with a reconnect at non-initial counters, a reset negotiation, or a SequenceReset that changes or must not change the expected number; distinct = distinct history"
+const c07Rule = "all 16 combinations of ResetOnLogon/ResetOnLogout/ResetOnDisconnect/RefreshOnLogon x role x BeginString x store (memory, file, sqlite) x plain / optional-field session identity, generated starting counters, then a state machine: traffic, peer logout, disconnect, reconnect with a faithful or a ResetSeqNumFlag-carrying counterparty, an application that leaves its Logon alone, adds ResetSeqNumFlag=N or (initiator) sets ResetSeqNumFlag=Y in ToAdmin, reset-time crossings, restarts on the persistent store, SequenceReset messages over NewSeqNo {<,=,>expected} x GapFillFlag {Y,N,absent} x MsgSeqNum {expected, above, below+PossDup}, ResetSeqTime at a drawn hour in a drawn zone with the tick values expressed in another; non-trivial = history with a reconnect at non-initial counters, a reset negotiation, or a SequenceReset that changes or must not change the expected number; distinct = distinct history"
 
 func c07() *stats.Collector {
 	c := stats.Get("C07")
@@ -310,8 +310,27 @@ func c07Property(t *rapid.T) {
 	cfg.settings[config.ResetOnLogout] = yn(o.resetOnLogout)
 	cfg.settings[config.ResetOnDisconnect] = yn(o.resetOnDisconnect)
 	cfg.settings[config.RefreshOnLogon] = yn(o.refreshOnLogon)
+	// the reset time is a time of day in the configured zone; the ticks that reach the session carry
+	// the same instants expressed in whatever zone the machine's clock uses
+	resetZone, tickZone := time.UTC, time.UTC
+	resetHour := 12
 	if o.resetSeqTime {
-		cfg.settings[config.ResetSeqTime] = "12:00:00"
+		load := func(n string) *time.Location {
+			if l, err := time.LoadLocation(n); err == nil {
+				return l
+			}
+			return time.UTC
+		}
+		resetZone = load(rapid.SampledFrom([]string{"UTC", "UTC", "Asia/Tokyo", "America/New_York"}).Draw(t, "reset-zone"))
+		tickZone = load(rapid.SampledFrom([]string{"UTC", "UTC", "Asia/Tokyo", "America/New_York", "Australia/Sydney"}).Draw(t, "tick-zone"))
+		resetHour = rapid.SampledFrom([]int{12, 12, 0, 1, 8, 22, 23}).Draw(t, "reset-hour")
+		cfg.settings[config.ResetSeqTime] = fmt.Sprintf("%02d:00:00", resetHour)
+		if resetZone != time.UTC {
+			cfg.settings[config.TimeZone] = resetZone.String()
+		}
+		if resetZone.String() != tickZone.String() {
+			c.Class("reset-time:zone-of-the-ticks-differs-from-the-configured-zone")
+		}
 	}
 	s := newSim(t, c, cfg)
 	defer s.close()
@@ -413,11 +432,16 @@ func c07Property(t *rapid.T) {
 		}
 	}
 	logonCycle(t)
-	resetClock := time.Date(2024, 5, 6, 11, 0, 0, 0, time.UTC)
+	resetAt := time.Date(2024, 5, 6, resetHour, 0, 0, 0, resetZone) // today's reset instant
+	resetClock := resetAt.Add(-time.Hour)
+	nextDay := func() {
+		resetAt = resetAt.AddDate(0, 0, 1)
+		resetClock = resetAt.Add(-time.Hour)
+	}
 	afterNoon, quietTicks := false, 0
 	quiet := func(now time.Time, what string) {
 		ctx := s.ctxFor("resetcheck", nil, false)
-		st := s.r.CheckResetTime(now)
+		st := s.r.CheckResetTime(now.In(tickZone))
 		s.logf("%s (virtual clock %s)", what, now.Format("Jan 2 15:04"))
 		s.observe(st, ctx)
 		resets := 0
@@ -559,7 +583,7 @@ func c07Property(t *rapid.T) {
 			if afterNoon && s.r.V.IsLoggedOn() {
 				mon.feat["tick-after-the-reset-time-went-by-while-down"] = true
 				// next day, 11:00
-				resetClock = time.Date(resetClock.Year(), resetClock.Month(), resetClock.Day()+1, 11, 0, 0, 0, time.UTC)
+				nextDay()
 				afterNoon, quietTicks = false, 0
 			}
 		},
@@ -570,7 +594,7 @@ func c07Property(t *rapid.T) {
 				return
 			}
 			quiet(resetClock, "tick before the reset time, not connected")
-			resetClock = time.Date(resetClock.Year(), resetClock.Month(), resetClock.Day(), 13, 0, 0, 0, time.UTC)
+			resetClock = resetAt.Add(time.Hour)
 			quiet(resetClock, "tick after the reset time, not connected")
 			afterNoon, quietTicks = true, 0
 			mon.feat["reset-time-went-by-while-down"] = true
@@ -581,15 +605,19 @@ func c07Property(t *rapid.T) {
 			}
 			// two run-loop ticks: one before, one after the configured reset time
 			ctx := s.ctxFor("resetcheck", nil, false)
-			st := s.r.CheckResetTime(resetClock)
+			st := s.r.CheckResetTime(resetClock.In(tickZone))
 			s.observe(st, ctx)
-			resetClock = time.Date(resetClock.Year(), resetClock.Month(), resetClock.Day(), 13, 0, 0, 0, time.UTC)
+			// (the run loop ticks once a second: the tick before the configured instant and the one after)
 			ctx = s.ctxFor("resetcheck", nil, false)
-			st = s.r.CheckResetTime(resetClock)
+			st = s.r.CheckResetTime(resetAt.Add(-time.Second).In(tickZone))
+			s.observe(st, ctx)
+			resetClock = resetAt.Add(time.Second)
+			ctx = s.ctxFor("resetcheck", nil, false)
+			st = s.r.CheckResetTime(resetClock.In(tickZone))
 			s.observe(st, ctx)
 			s.logf("reset time crossed (virtual clock %s)", resetClock.Format("15:04"))
 			afterReset := resetClock.Add(5 * time.Minute)
-			resetClock = time.Date(resetClock.Year(), resetClock.Month(), resetClock.Day()+1, 11, 0, 0, 0, time.UTC)
+			nextDay()
 			quietTicks = 0
 			sent := false
 			for _, e := range s.r.Outs(st) {
